@@ -290,8 +290,11 @@ class KVApp(object):
     def peers_of(self, world, host):
         return [h.addr for h in world.hosts if h.member and not h.readonly and h.idx != host.idx]
 
+    def node_class(self):
+        return get_classes()['SimObj']
+
     def make_node(self, world, host):
-        cls = get_classes()['SimObj']
+        cls = self.node_class()
         conf = self.make_conf(world, host)
         node = cls(host, host.addr, self.peers_of(world, host), conf, consumers=self.make_consumers(world, host))
         if self.idmap is None:
